@@ -175,7 +175,7 @@ structure Accepted (V : Verifier) (tbl : List AlgEntry) (w : Bytes) (k : Key) (n
   hdr : p + 10 + rd16 w (p + 8) = w.length
   typ : rd16 w p = ConstsC14.typeTsig
   cls : rd16 w (p + 2) = ConstsC14.classAny
-  own : ∃ k', fromWire w s = .ok (owner, k')
+  own : decodeName w s = .ok owner
   parse : rdataParse w (p + 10) w.length = .ok rd
   valid : validateV V tbl w k owner rd now rm s ctx multi = .ok (c, c')
 
@@ -185,14 +185,14 @@ theorem accepted_of_read (V : Verifier) (tbl : List AlgEntry) (strict : Bool) (w
     ∃ s p owner rd c c', f = ⟨owner, rd, some (c, rd.mac)⟩ ∧ r.ctx = c'
       ∧ Accepted V tbl w k now rm ctx multi s p owner rd c c' ∧ (strict = true → rd32 w (p + 4) = 0) := by
   obtain ⟨hl, _, s, p, st3, hw, hp, ht, hr, hend, hts, hctx⟩ := readV_signed V tbl strict w (.key k) now rm ctx multi r f h hf
-  obtain ⟨_, hcls, _, hstrict, hle, hcur, owner, k', rd, hfw, hrd, hcase⟩ :=
+  obtain ⟨_, hcls, _, hstrict, hle, hcur, owner, rd, hfw, hrd, hcase⟩ :=
     readRR_tsig V tbl strict w (.key k) now rm multi 3 _ _ ⟨s, none, ctx⟩ st3 p hp ht hr
   have hwl : p + 10 + rd16 w (p + 8) = w.length := by rw [← hcur, hend]
   rcases hcase with ⟨hres, _, _⟩ | ⟨key, c, c', hres, hv, htsig, hc'⟩
   · simp [resolveKey] at hres
   · simp only [resolveKey, Except.ok.injEq, Option.some.injEq] at hres
     subst hres
-    refine ⟨s, p, owner, rd, c, c', ?_, by rw [hctx, hc'], ⟨hl, hw, hp, hwl, ht, hcls, ⟨k', hfw⟩, by rw [← hwl]; exact hrd, hv⟩, hstrict⟩
+    refine ⟨s, p, owner, rd, c, c', ?_, by rw [hctx, hc'], ⟨hl, hw, hp, hwl, ht, hcls, hfw, by rw [← hwl]; exact hrd, hv⟩, hstrict⟩
     rw [hts] at htsig
     exact (Option.some.inj htsig)
 
